@@ -24,7 +24,12 @@
 //!   `r<kind>` = kind of the root context value, `empty` = `Environment::empty()` (with the few
 //!   builtins the shapes use added by hand) instead of `Environment::new()`, `deflimit` = the limit
 //!   is NOT configured (the environment's default applies; the limit field must then be 500),
-//!   `dbg` = `set_debug` flipped against the build's default.
+//!   `dbg` = `set_debug` flipped against the build's default; the AMBIENT configuration the charge
+//!   of an edge must not depend on: `ubs` / `ubc` / `ubl` = undefined behaviour strict / chainable /
+//!   semi-strict, `fuel` = fuel tracking on (a budget that is never exhausted), `aeh` = auto-escape
+//!   Html for every template; `nest<R>` = the program is rendered inside `R - 1` renders started by a
+//!   Rust function from template code (`fresh(name)` = `state.env().get_template(name)?.render(())`):
+//!   every render is a root with a budget of its own.
 //!
 //! Every case runs the REAL engine in a child process (re-exec of this binary, `batch` mode), so
 //! a native stack overflow is observed as the child's death by signal.  Result line:
@@ -52,6 +57,9 @@
 //!        c11 one <case fields…>     — run one case in a child (replay)
 //!        c11 batch                  — (child) cases on stdin, one result line each
 //!        c11 show <shape>           — print the generated templates of a shape
+//!        c11 leaf                   — (names of builtin filters / tests / functions on stdin, `<kind> <name>`)
+//!                                     the deepest stack excursion of each below a plain function call, measured
+//!                                     through a probing object that reports the stack pointer from its callbacks
 use minijinja::value::Value;
 #[cfg(feature = "hooks")]
 use minijinja::verif_hooks::recursion;
@@ -267,6 +275,108 @@ fn lazy_source(name: &str) -> Option<String> {
     } else {
         None
     }
+}
+
+/// a render started from inside a render: a new root (`Template::render` creates its own `Context`)
+fn fresh(state: &State, name: String) -> Result<Value, Error> {
+    state.env().get_template(&name)?.render(Value::UNDEFINED).map(Value::from_safe_string)
+}
+
+/// an object that reports the stack pointer whenever a builtin looks at it (leaf measurement)
+#[derive(Debug)]
+struct Probe(u32);
+fn probe_sp() {
+    let marker = 0u8;
+    TICK_LOW.fetch_min(&marker as *const u8 as usize, Ordering::Relaxed);
+}
+impl minijinja::value::Object for Probe {
+    fn repr(self: &std::sync::Arc<Self>) -> minijinja::value::ObjectRepr {
+        probe_sp();
+        if self.0 % 2 == 0 { minijinja::value::ObjectRepr::Seq } else { minijinja::value::ObjectRepr::Map }
+    }
+    fn get_value(self: &std::sync::Arc<Self>, key: &Value) -> Option<Value> {
+        probe_sp();
+        if self.0 >= 2 {
+            return None;
+        }
+        match key.as_usize() {
+            Some(i) if i < 3 => Some(Value::from_object(Probe(self.0 + 2))),
+            _ => key.as_str().map(|_| Value::from_object(Probe(self.0 + 2))),
+        }
+    }
+    fn enumerate(self: &std::sync::Arc<Self>) -> minijinja::value::Enumerator {
+        probe_sp();
+        if self.0 >= 2 {
+            return minijinja::value::Enumerator::Empty;
+        }
+        if self.0 % 2 == 0 { minijinja::value::Enumerator::Seq(3) } else { minijinja::value::Enumerator::Str(&["a", "b", "c"]) }
+    }
+    fn render(self: &std::sync::Arc<Self>, f: &mut std::fmt::Formatter<'_>) -> std::fmt::Result {
+        probe_sp();
+        write!(f, "probe{}", self.0)
+    }
+    fn call(self: &std::sync::Arc<Self>, _state: &mut State<'_, '_>, _args: &[Value]) -> Result<Value, Error> {
+        probe_sp();
+        Ok(Value::from(1))
+    }
+}
+
+/// `leaf` subcommand: for every named builtin, the deepest stack pointer any callback of the
+/// probing object sees while the builtin runs, relative to a plain function called from the same
+/// template level
+fn leaf_measure(items: &[(String, String)]) -> Vec<String> {
+    let mut env = Environment::new();
+    env.add_function("tick", tick);
+    env.add_global("p", Value::from_object(Probe(0)));
+    env.add_global("q", Value::from_object(Probe(1)));
+    let mut out = vec![];
+    let base = {
+        TICK_LOW.store(usize::MAX, Ordering::Relaxed);
+        BUDGET.store(-1, Ordering::Relaxed);
+        let _ = env.render_str("{{ tick() }}", ());
+        TICK_LOW.load(Ordering::Relaxed)
+    };
+    for (kind, name) in items {
+        let exprs: Vec<String> = match kind.as_str() {
+            "filter" => ["p", "q", "[p, q, p]", "{'k': p, 'l': q}", "'text'", "3"]
+                .iter()
+                .flat_map(|v| {
+                    vec![
+                        format!("{{{{ {v}|{name} }}}}"),
+                        format!("{{{{ {v}|{name}(p) }}}}"),
+                        format!("{{{{ {v}|{name}('a') }}}}"),
+                        format!("{{{{ {v}|{name}(1, q) }}}}"),
+                        format!("{{{{ {v}|{name}(attribute='a') }}}}"),
+                    ]
+                })
+                .collect(),
+            "test" => ["p", "q", "[p, q]", "'text'", "3"]
+                .iter()
+                .flat_map(|v| vec![format!("{{{{ {v} is {name} }}}}"), format!("{{{{ {v} is {name}(p) }}}}"), format!("{{{{ {v} is {name}('a') }}}}")])
+                .collect(),
+            _ => vec![
+                format!("{{{{ {name}() }}}}"),
+                format!("{{{{ {name}(p) }}}}"),
+                format!("{{{{ {name}(q) }}}}"),
+                format!("{{{{ {name}(p, q) }}}}"),
+                format!("{{{{ {name}(3) }}}}"),
+                format!("{{{{ {name}(a=p, b=q) }}}}"),
+            ],
+        };
+        let mut low = usize::MAX;
+        let mut ran = 0;
+        for e in exprs {
+            TICK_LOW.store(usize::MAX, Ordering::Relaxed);
+            let r = guarded(|| env.render_str(&e, ()));
+            if matches!(r, Ok(Ok(_))) {
+                ran += 1;
+            }
+            low = low.min(TICK_LOW.load(Ordering::Relaxed));
+        }
+        let bytes = if low == usize::MAX || base == usize::MAX { 0 } else { base.saturating_sub(low) };
+        out.push(format!("leaf\t{kind}\t{name}\t{bytes}\t{ran}"));
+    }
+    out
 }
 
 /// a custom object as root context
@@ -713,6 +823,17 @@ fn run_here(shape: &str, limit: usize, budget: i64, mode: &str) -> String {
     if !toks.contains(&"deflimit") {
         env.set_recursion_limit(limit);
     }
+    // the ambient configuration: nothing of it may enter the depth accounting
+    for t in &toks {
+        match *t {
+            "ubs" => env.set_undefined_behavior(minijinja::UndefinedBehavior::Strict),
+            "ubc" => env.set_undefined_behavior(minijinja::UndefinedBehavior::Chainable),
+            "ubl" => env.set_undefined_behavior(minijinja::UndefinedBehavior::SemiStrict),
+            "fuel" => env.set_fuel(Some(u64::MAX / 4)),
+            "aeh" => env.set_auto_escape_callback(|_| minijinja::AutoEscape::Html),
+            _ => {}
+        }
+    }
     if toks.contains(&"dbg") {
         // the other setting of `Environment::set_debug` than the build's default: with it the error
         // raised at the bottom of the recursion carries a rendering of the variables in scope
@@ -724,6 +845,7 @@ fn run_here(shape: &str, limit: usize, budget: i64, mode: &str) -> String {
     env.add_global("robj", Value::from_object(RenderObj));
     env.add_function("tick", tick);
     env.add_function("rb", rb);
+    env.add_function("fresh", fresh);
     env.add_function("dp", dp);
     env.add_function("chk", chk);
     env.add_function("tryb", tryb);
@@ -739,14 +861,25 @@ fn run_here(shape: &str, limit: usize, budget: i64, mode: &str) -> String {
     // `<mode>` and `r<root kind>` tokens
     let mut root_kind = 'm';
     let mut entry_mode = "";
+    let mut nest_renders: usize = 1;
     for tok in mode.split('+').filter(|t| !t.is_empty()) {
         if tok.len() == 2 && tok.starts_with('r') {
             root_kind = tok.chars().nth(1).unwrap();
-        } else if tok != "empty" && tok != "deflimit" && tok != "dbg" {
+        } else if let Some(r) = tok.strip_prefix("nest") {
+            nest_renders = r.parse().unwrap_or(1);
+        } else if !["empty", "deflimit", "dbg", "ubs", "ubc", "ubl", "fuel", "aeh"].contains(&tok) {
             entry_mode = tok;
         }
     }
     let mode = entry_mode;
+    let mut templates = templates;
+    let mut entry = entry;
+    for k in 1..nest_renders {
+        // wrapper k renders the previous entry through a Rust function: a fresh render
+        let name = format!("nestwrap{k}");
+        templates.insert(name.clone(), format!("{{{{ fresh({:?}) }}}}", entry));
+        entry = name;
+    }
     let entry_source = templates.get(&entry).cloned().unwrap_or_default();
     env.set_loader(move |name| Ok(templates.get(name).cloned().or_else(|| lazy_source(name))));
     // the limit is configured before the environment is cloned
@@ -935,6 +1068,7 @@ fn run_in_children(cases: &[String]) -> Vec<String> {
 
 // ------------------------------------------------------------------------------------ generation
 
+const AMBIENT: [&str; 5] = ["ubs", "ubc", "ubl", "fuel", "aeh"];
 const T_KINDS: [char; 12] = ['I', 'P', 'W', 'K', 'B', 'L', 'Y', 'X', 'Z', 'V', 'F', 'E'];
 const X_KINDS: [char; 19] = ['b', 'r', 'w', 'f', 't', 'g', 'u', 'p', 's', 'o', 'h', 'M', 'Q', 'O', 'F', 'T', 'G', 'P', 'C'];
 const M_KINDS: [char; 15] = ['M', 'A', 'C', 'L', 'J', 'Q', 'O', 'H', 'F', 'E', 'G', 'U', 'D', 'N', 'I'];
@@ -1030,6 +1164,9 @@ fn cases(tier: &str) -> Vec<String> {
             // the kind of the root context is an axis of every stream
             let rk = ['u', 'x', 'o', 'e', 's', 'x'][(si + li) % 6];
             out.push(format!("{sh} {limit} 0 t2m+r{rk}"));
+            // so is the ambient configuration (undefined behaviour, fuel, auto-escape)
+            let amb = AMBIENT[(si + 2 * li) % AMBIENT.len()];
+            out.push(format!("{sh} {limit} 0 t2m+{amb}"));
             // a terminating variant: budget below what the limit admits, and one near it
             let b1 = 1 + rng.below(3) as usize;
             let b2 = 1 + rng.below(limit as u64 / 2 + 2) as usize;
@@ -1070,6 +1207,19 @@ fn cases(tier: &str) -> Vec<String> {
         out.push(format!("{sh} 500 3 t2m+empty+deflimit"));
         out.push(format!("{sh} 10 0 t2m+empty+clone"));
         out.push(format!("{sh} 500 0 t2m+dbg"));
+    }
+    // the ambient configuration x every pure cycle: the charge of an edge does not depend on the
+    // undefined behaviour, the fuel or the auto-escape setting (alone and all at once); and the same
+    // program inside renders started by a Rust function: every render has its own budget
+    for sh in shapes.iter().filter(|s| !s.contains(',') && s.ends_with("0000")) {
+        for amb in AMBIENT.iter().chain(["ubs+fuel+aeh", "ubc+fuel+empty"].iter()) {
+            out.push(format!("{sh} 10 0 t2m+{amb}"));
+            out.push(format!("{sh} 500 0 t2m+{amb}"));
+            out.push(format!("{sh} 100 3 t2m+{amb}"));
+        }
+        out.push(format!("{sh} 100 0 t2m+nest2"));
+        out.push(format!("{sh} 500 0 t2m+nest3"));
+        out.push(format!("{sh} 10 2 t2m+nest4+fuel"));
     }
     // finite recursions with more nested steps than the limit has units: every step is charged at
     // least one unit, so none of them can complete
@@ -1191,6 +1341,21 @@ fn main() {
             let case = args[2..].join(" ");
             for r in run_in_children(&[case]) {
                 println!("{r}");
+            }
+        }
+        Some("leaf") => {
+            let stdin = std::io::stdin();
+            let items: Vec<(String, String)> = stdin
+                .lock()
+                .lines()
+                .filter_map(|l| {
+                    let l = l.ok()?;
+                    let (a, b) = l.trim().split_once(' ')?;
+                    Some((a.to_string(), b.to_string()))
+                })
+                .collect();
+            for l in leaf_measure(&items) {
+                println!("{l}");
             }
         }
         Some("show") => {
